@@ -48,12 +48,20 @@ def soil_doc(sc):
     return d
 
 
-def soil_worker(sc):
+def soil_worker(sc, tmo=60):
+    import signal
+    import common as C
+    signal.signal(signal.SIGALRM, C._alarm)
+    signal.setitimer(signal.ITIMER_REAL, tmo)
     try:
         return {"ok": True, "doc": soil_doc(sc)}
+    except C.RunTimeout:
+        return {"ok": False, "error": {"type": "NonTermination", "msg": f"profile construction did not finish within {tmo}s"}}
     except BaseException as exc:  # noqa
         import traceback
         return {"ok": False, "error": {"type": type(exc).__name__, "msg": str(exc)[:300], "tb": traceback.format_exc()[-1500:]}}
+    finally:
+        signal.setitimer(signal.ITIMER_REAL, 0)
 
 
 def build_worker(args):
